@@ -107,6 +107,12 @@ type scenario struct {
 	rounds      int
 	verdictOnly bool
 	boost       int // iterations multiplied by this (cheap operations)
+	// first-use scenarios (firstuse.go): entries called by all goroutines at once behind a barrier, each for the first
+	// time in the process; procs = number of cold processes the scenario is repeated in
+	firstUse func() []fuEntry
+	procs    int
+	// special: the scenario runs this instead of the hammering loop and prints its own RESULT line
+	special func()
 }
 
 func verdict(s any, in any) string {
@@ -125,6 +131,7 @@ var targets []string
 
 func scenarios() []scenario {
 	out := baseScenarios()
+	out = append(out, firstUseScenarios()...)
 	// one scenario per shared location with callable accessors (package-level caches, config, locale table)
 	for _, loc := range sharedLocs() {
 		if sc, ok := accessorScenario("cache:"+loc, loc, nil, 20); ok {
@@ -315,6 +322,49 @@ func runScenario(sc scenario, g, iters int) int {
 	return mismatches
 }
 
+// runChild runs one scenario in a process of its own under the race detector and classifies what happened.
+func runChild(self string, sc scenario, tier, outDir, tg, gomaxprocs string) string {
+	ctx, cancel := context.WithTimeout(context.Background(), 240*time.Second)
+	defer cancel()
+	cmd := exec.CommandContext(ctx, self, "-scenario", sc.name, "-tier", tier, "-out", outDir, "-targets", tg)
+	cmd.Env = append(os.Environ(), "GORACE=halt_on_error=0 exitcode=66")
+	if gomaxprocs != "" {
+		cmd.Env = append(cmd.Env, "GOMAXPROCS="+gomaxprocs)
+	}
+	var so, se bytes.Buffer
+	cmd.Stdout, cmd.Stderr = &so, &se
+	runErr := cmd.Run()
+	obs := "norace ok"
+	switch {
+	case ctx.Err() == context.DeadlineExceeded || strings.Contains(so.String(), "RESULT deadlock"):
+		obs = "deadlock"
+		os.WriteFile(outDir+"/crash-"+fileName(sc.name)+".txt", append(so.Bytes(), se.Bytes()...), 0o644)
+	case strings.Contains(se.String(), "DATA RACE"):
+		fr := "?"
+		for _, ln := range strings.Split(se.String(), "\n") {
+			t := strings.TrimSpace(ln)
+			if strings.HasPrefix(t, "github.com/kaptinlin/gozod/") {
+				t = strings.TrimPrefix(t, "github.com/kaptinlin/gozod/")
+				t = regexp.MustCompile(`\[[^\]]*\]`).ReplaceAllString(t, "")
+				t = strings.NewReplacer("(*", "", ")", "", "(", "").Replace(t)
+				fr = strings.TrimSuffix(t, ".func1")
+				break
+			}
+		}
+		obs = "RACE " + fr
+		os.WriteFile(outDir+"/race-"+fileName(sc.name)+".txt", se.Bytes(), 0o644)
+	case !strings.Contains(so.String(), "RESULT mismatches=0"):
+		if runErr != nil && !strings.Contains(so.String(), "RESULT") {
+			obs = "crash"
+			os.WriteFile(outDir+"/crash-"+fileName(sc.name)+".txt", se.Bytes(), 0o644)
+		} else {
+			obs = "mismatch " + strings.TrimSpace(strings.TrimPrefix(so.String(), "RESULT "))
+			os.WriteFile(outDir+"/crash-"+fileName(sc.name)+".txt", se.Bytes(), 0o644)
+		}
+	}
+	return obs
+}
+
 func fileName(s string) string { return strings.NewReplacer(":", "_", "/", "_").Replace(s) }
 
 func main() {
@@ -323,6 +373,7 @@ func main() {
 	tier := flag.String("tier", "quick", "")
 	outDir := flag.String("out", "", "")
 	tg := flag.String("targets", "", "conflicts of the lock-set table: <loc>=<fn>+<fn>,…")
+	aloneF := flag.Bool("alone", false, "first-use scenario: run every entry once, sequentially, and print the results")
 	flag.Parse()
 	if *tg != "" {
 		targets = strings.Split(*tg, ",")
@@ -335,6 +386,19 @@ func main() {
 	if *scn != "" {
 		for _, sc := range scenarios() {
 			if sc.name == *scn {
+				if sc.special != nil {
+					sc.special()
+					return
+				}
+				if sc.firstUse != nil {
+					if *aloneF {
+						runAlone(sc)
+						return
+					}
+					self, _ := os.Executable()
+					fmt.Printf("RESULT mismatches=%d\n", runFirstUse(sc, g, self, []string{"-tier", *tier, "-targets", *tg}))
+					return
+				}
 				n := runScenario(sc, g, iters)
 				fmt.Printf("RESULT mismatches=%d\n", n)
 				return
@@ -348,42 +412,28 @@ func main() {
 		os.Exit(3)
 	}
 	self, _ := os.Executable()
+	// thorough: every scenario a second time on 2 Ps (more preemption inside critical windows)
+	passes := []string{""}
+	if *tier == "thorough" {
+		passes = append(passes, "2")
+	}
 	for _, sc := range scenarios() {
-		ctx, cancel := context.WithTimeout(context.Background(), 240*time.Second)
-		cmd := exec.CommandContext(ctx, self, "-scenario", sc.name, "-tier", *tier, "-out", *outDir, "-targets", *tg)
-		cmd.Env = append(os.Environ(), "GORACE=halt_on_error=0 exitcode=66")
-		var so, se bytes.Buffer
-		cmd.Stdout, cmd.Stderr = &so, &se
-		runErr := cmd.Run()
-		cancel()
-		obs := "norace ok"
-		switch {
-		case ctx.Err() == context.DeadlineExceeded:
-			obs = "deadlock"
-		case strings.Contains(se.String(), "DATA RACE"):
-			fr := "?"
-			for _, ln := range strings.Split(se.String(), "\n") {
-				t := strings.TrimSpace(ln)
-				if strings.HasPrefix(t, "github.com/kaptinlin/gozod/") {
-					t = strings.TrimPrefix(t, "github.com/kaptinlin/gozod/")
-					t = regexp.MustCompile(`\[[^\]]*\]`).ReplaceAllString(t, "")
-					t = strings.NewReplacer("(*", "", ")", "", "(", "").Replace(t)
-					fr = strings.TrimSuffix(t, ".func1")
-					break
-				}
+		for _, procsEnv := range passes {
+			obs := "norace ok"
+			np := sc.procs
+			if np < 1 {
+				np = 1
 			}
-			obs = "RACE " + fr
-			os.WriteFile(*outDir+"/race-"+fileName(sc.name)+".txt", se.Bytes(), 0o644)
-		case !strings.Contains(so.String(), "RESULT mismatches=0"):
-			if runErr != nil && !strings.Contains(so.String(), "RESULT") {
-				obs = "crash"
-				os.WriteFile(*outDir+"/crash-"+fileName(sc.name)+".txt", se.Bytes(), 0o644)
-			} else {
-				obs = "mismatch " + strings.TrimSpace(strings.TrimPrefix(so.String(), "RESULT "))
+			for p := 0; p < np && obs == "norace ok"; p++ {
+				obs = runChild(self, sc, *tier, *outDir, *tg, procsEnv)
 			}
+			suffix := ""
+			if procsEnv != "" {
+				suffix = " gomaxprocs=" + procsEnv
+			}
+			o.Emit(fmt.Sprintf("c14 race %s #goroutines=%d iterations=%d rounds=%d processes=%d%s", sc.name, g, iters, sc.rounds, np, suffix), obs)
+			o.Count("scenario:" + strings.Fields(obs)[0])
 		}
-		o.Emit(fmt.Sprintf("c14 race %s #goroutines=%d iterations=%d rounds=%d", sc.name, g, iters, sc.rounds), obs)
-		o.Count("scenario:" + strings.Fields(obs)[0])
 	}
 	if err := o.Close(map[string]any{"goroutines": g, "iterations": iters}); err != nil {
 		fmt.Fprintln(os.Stderr, err)
